@@ -10,15 +10,35 @@ package backend
 // filesystem of the storage the loader returned, and that handle is what is
 // copied to the response: no host-path access (package os, net/http's file
 // servers) stands beside it, so the loader's confinement is the handler's.
+// The storage is loaded once, and by the configured loader whenever one is
+// configured: the default loader (rooted at the host's /) is consulted only
+// when the Backend has none (helpers without a contract are inlined, so the
+// rule follows the Load call into them).
 //gvc:func (*Backend).handleDumbSendFile
 //gvc:  props C40
 //gvc:  theory int
 //gvc:  opt coarse
 //gvc:  opt frame args
+//gvc:  opt inline
+//gvc:  sink Loader).Load requires configured: b.Loader == nil || recv == b.Loader
+//gvc:  sink Open requires loaded: calls("Load") == 1
 //gvc:  sink os.* requires confined: false
 //gvc:  sink net/http.Serve* requires confined: false
 //gvc:  sink net/http.FileServer* requires confined: false
 //gvc:  sink Open requires viastorage: recv.#owner == st
 //gvc:  sink Lstat requires viastorage: recv.#owner == st
 //gvc:  sink CopyBufferPool requires opened: arg1 == f
+//gvc:end
+
+// Serve (pack protocol): the same rule for the storage it serves from.
+//gvc:func (*Backend).Serve
+//gvc:  props C40
+//gvc:  theory int
+//gvc:  opt coarse
+//gvc:  opt frame args
+//gvc:  opt inline
+//gvc:  sink Loader).Load requires configured: b.Loader == nil || recv == b.Loader
+//gvc:  sink UploadPack requires loaded: calls("Load") == 1 && arg1 == st
+//gvc:  sink ReceivePack requires loaded: calls("Load") == 1 && arg1 == st
+//gvc:  sink UploadArchive requires loaded: calls("Load") == 1
 //gvc:end
